@@ -1031,6 +1031,15 @@ class Model:
                         # Don't do anything for now, we only eliminate alg_states
                         pass
 
+                    elif (
+                        self.alias_relation.canonical_signed(alg_state.name())[0]
+                        == self.alias_relation.canonical_signed(other_state.name())[0]
+                    ):
+                        # The states are already aliases of each other. There is no
+                        # variable left to eliminate, and with the opposite sign the
+                        # equation forces both to zero, so we have to keep it.
+                        pass
+
                     else:
                         # Eliminate alg_state by aliasing it to other_state
                         if negative_alias:
